@@ -82,7 +82,7 @@ class TIcon(T):
 
     def make(self, ctx, path):
         n = ctx.var.length(path, 5)
-        var, ex = ctx.h.sym_ascii(n)
+        var, ex = ctx.h.sym_text(n, ctx.var.text)
         return Leaf(var=var, ex=ex, n=n)
 
     def cbor(self, m):
@@ -175,7 +175,7 @@ class TFilteredParams(T):
                 var = ctx.h.sym_uint(lo, min(hi, 0x7FFFFFFF))
                 ents.append(Leaf(kind=k, var=var, cls=cls, major=major, ty=list(b"public-key")))
             elif k == "unktype":
-                tv, tex = ctx.h.sym_ascii(10)
+                tv, tex = ctx.h.sym_text(10, ctx.var.text)
                 ctx.h.decl.append('kani::assume(!eq(&%s, b"public-key"));' % tv)
                 ents.append(Leaf(kind=k, alg=-7, ty=tex, var=None))
             else:
@@ -224,7 +224,7 @@ class TAttFmtPref(T):
                 ents.append(Leaf(kind=k, ex=list(k.encode())))
             else:
                 n = int(k[3:])
-                v, ex = ctx.h.sym_ascii(n)
+                v, ex = ctx.h.sym_text(n, ctx.var.text)
                 ctx.h.decl.append('kani::assume(!eq(&%s, b"packed") && !eq(&%s, b"none"));' % (v, v))
                 ents.append(Leaf(kind="unknown", ex=ex))
         return ents
